@@ -426,6 +426,12 @@ class IrToPythonCompiler:
             self.emit("return")
         elif isinstance(ins, ir.Undefined):
             self.emit(f"{ins.name} = 0")
+        elif isinstance(ins, ir.CopyBlob):
+            dst = self.fetch_address(ins.dst)
+            src = self.fetch_address(ins.src)
+            self.emit(
+                f"rt.write_mem({dst}, rt.read_mem({src}, {ins.amount}))"
+            )
         else:  # pragma: no cover
             self.emit(f"not implemented: {ins}")
             raise NotImplementedError(str(type(ins)))
@@ -499,9 +505,11 @@ class IrToPythonCompiler:
     def gen_store(self, ins):
         address = ins.address.name
         if isinstance(ins.value.ty, ir.BlobDataTyp):
+            # A blob value is a (address, size) pair, copy its bytes:
+            src = self.fetch_value(ins.value)
             self.emit(
-                f"rt.write_mem({address}, {ins.value.ty.size}, "
-                + f"{ins.value.name})"
+                f"rt.write_mem({address}, "
+                + f"rt.read_mem({src}[0], {ins.value.ty.size}))"
             )
         else:
             value = self.fetch_value(ins.value)
@@ -525,6 +533,13 @@ class IrToPythonCompiler:
             expr = f"rt.externals['{callee.name}']"
         else:
             expr = f"rt.func_pointers[{callee.name}]"
+        return expr
+
+    def fetch_address(self, value):
+        """Get the address a ptr or blob typed value refers to."""
+        expr = self.fetch_value(value)
+        if isinstance(value.ty, ir.BlobDataTyp):
+            expr = f"{expr}[0]"
         return expr
 
     def fetch_value(self, value):
